@@ -557,8 +557,11 @@ func (l *commitLog) NewLeaderEpoch(epoch uint64) error {
 // larger than the provided one or the log end offset if the current epoch
 // equals the provided one.
 func (l *commitLog) LastOffsetForLeaderEpoch(epoch uint64) int64 {
-	offset := l.leaderEpochCache.LastOffsetForLeaderEpoch(epoch)
-	if offset == -1 {
+	offset, ok := l.leaderEpochCache.lastOffsetForLeaderEpoch(epoch)
+	if !ok {
+		// There is no larger epoch. Note that an offset of -1 does not imply
+		// this because a leader elected on an empty log starts its epoch at
+		// -1, in which case nothing of the provided epoch is in the log.
 		offset = l.activeSegment().NextOffset() - 1
 	}
 	return offset
